@@ -4,6 +4,16 @@ use aelys_syntax::{Expr, ExprKind, TokenKind, UnaryOp};
 
 impl Parser {
     pub(super) fn unary(&mut self) -> Result<Expr> {
+        if matches!(
+            self.peek().kind,
+            TokenKind::Minus | TokenKind::Not | TokenKind::Tilde
+        ) {
+            return self.nested(Self::unary_operator);
+        }
+        self.unary_operator()
+    }
+
+    fn unary_operator(&mut self) -> Result<Expr> {
         if self.match_token(&TokenKind::Minus) {
             let start = self.previous().span;
             let operand = self.unary()?;
